@@ -323,6 +323,16 @@ fn drop_doc(sc: &Scenario, j: usize) -> Scenario {
             }
         }
     }
+    for t in c.thread_ops.iter_mut() {
+        t.retain(|o| !matches!(o, Op::Match(i) if *i == j));
+        for o in t.iter_mut() {
+            if let Op::Match(i) = o {
+                if *i > j {
+                    *i -= 1;
+                }
+            }
+        }
+    }
     c.ops.retain(|o| !matches!(o, Op::Match(i) if *i == j));
     for o in c.ops.iter_mut() {
         if let Op::Match(i) = o {
@@ -395,6 +405,24 @@ fn candidates(sc: &Scenario) -> Vec<Scenario> {
             for k in 0..sc.threads[t].len() {
                 let mut c = sc.clone();
                 c.threads[t].remove(k);
+                c.schedule = None;
+                out.push(c);
+            }
+        }
+    }
+    if sc.thread_ops.len() > 1 {
+        for t in 0..sc.thread_ops.len() {
+            let mut c = sc.clone();
+            c.thread_ops.remove(t);
+            c.schedule = None;
+            out.push(c);
+        }
+    }
+    for t in 0..sc.thread_ops.len() {
+        if sc.thread_ops[t].len() > 1 {
+            for k in 0..sc.thread_ops[t].len() {
+                let mut c = sc.clone();
+                c.thread_ops[t].remove(k);
                 c.schedule = None;
                 out.push(c);
             }
